@@ -273,6 +273,7 @@ static void m_once(const plan_t *p)
         aux_nodes = keys;
         PROBE("comparator_consults_another_map");
     }
+    memset(&map, (int)(unsigned char)p->cfg[CF_JUNK], sizeof map);
     cstl_map_init(&map, cmp_keys, &cmp_cookie);
     probe.magic = KMAGIC; probe.tail = ~KMAGIC; probe.id = -1;
 
